@@ -393,6 +393,35 @@ pub fn first_poll_arrivals(case: &Case, prog: &Prog) -> usize {
     n
 }
 
+/// C07: a single-branch program spawns nothing, so the future of a task-spawning macro can be driven
+/// without any tokio runtime, like its plain counterpart's. All-succeed plan, no gates: polled with a
+/// no-op waker outside every runtime context. Returns what happened.
+pub fn outside_runtime(case: &Case) -> String {
+    reset_all();
+    crate::cb::ASYNC_MODE.store(true, Ordering::SeqCst);
+    plan::set(Plan::all_good());
+    let f = match &case.f {
+        CaseFn::Async(f) => *f,
+        _ => return "not async".to_string(),
+    };
+    let r = catch_unwind(AssertUnwindSafe(|| {
+        let mut root = f();
+        let w = futures::task::noop_waker();
+        let mut cx = Context::from_waker(&w);
+        for _ in 0..10_000 {
+            if let Poll::Ready(o) = root.as_mut().poll(&mut cx) {
+                return Some(o.to_json().to_string());
+            }
+        }
+        None
+    }));
+    match r {
+        Ok(Some(o)) => format!("completed {}", o.chars().take(120).collect::<String>()),
+        Ok(None) => "still pending after 10000 polls".to_string(),
+        Err(_) => "panicked".to_string(),
+    }
+}
+
 fn next_picks(picks: &[usize], arity: &[usize]) -> Option<Vec<usize>> {
     // odometer over the choice points actually met in the last run
     let mut p: Vec<usize> = (0..arity.len()).map(|i| picks.get(i).copied().unwrap_or(0).min(arity[i].saturating_sub(1))).collect();
